@@ -144,6 +144,24 @@ def specCfg (mkStr : Name → Val) (description : Val) (args : List (Name × Dsl
   args.filterMap fun kv => (writtenItems kv.2).map fun items =>
     (kv.1, Entry.acc (withGroup mkStr (groupFor args kv.1) items))
 
+/-- the hypotheses of `dsl_faithful` as a check the driver runs on every module it is given as written: keywords are
+distinct, none is `description`, no `Param(v, value=…)`, every group member has an argument of its own -/
+def writtenOkB (args : List (Name × DslArg Val)) : Bool :=
+  decide ((args.map (·.1)).Nodup) && !(args.map (·.1)).contains "description" &&
+  (args.all fun kv => match kv.2 with
+    | .param (some _) kwds => (lookup "value" kwds).isNone
+    | _ => true) &&
+  (args.all fun kv => match kv.2 with
+    | .group ms => ms.all fun m => args.any fun kv' => kv'.1 == m && (writtenItems kv'.2).isSome
+    | _ => true)
+
+/-- the hypotheses of the theorems about a class description (`WellFormed`) as a check the driver runs on every
+description read off a real class: distinct property names, distinct parameter names, the base of a limit parameter is
+not itself a limit -/
+def wellFormedB (c : ClassDesc DT Val) : Bool :=
+  decide ((c.modProps.map (·.name)).Nodup) && decide ((c.params.map (·.name)).Nodup) &&
+  c.params.all fun pd => !pd.limit.isSome || c.params.all fun b => b.name != pd.base || b.limit.isNone
+
 /-! ## what is observed on the implementation -/
 
 structure ObsParam (DT Val : Type) where
